@@ -1,9 +1,9 @@
 package sim
 
 import (
-	"sort"
 	"crypto/sha256"
 	"fmt"
+	"sort"
 	"time"
 
 	"github.com/refraction-networking/uquic/verif/refwire"
@@ -22,7 +22,14 @@ type WireOptions struct {
 	// AliveUntil > 0: both connections were observed alive (no error) at this virtual time; enables the
 	// "ACK due no later than max_ack_delay after arrival" check for packets that arrived well before it.
 	AliveUntil time.Duration
-	// Connections: how many connections share the world (packet-number reuse is checked per key owner)
+	// FromSeq > 0: only the datagrams from this log position on are judged (a scenario that ran a preparatory
+	// connection first - e.g. to obtain a session ticket - passes the Router.Mark / ArmAll value taken in between, after
+	// the preparatory connection has gone quiet); transport parameters are then read from that part of the log too.
+	FromSeq int
+	// ZeroRTTSameLimits: the server configuration did not change since the session ticket was issued, so the limits the
+	// client remembers for 0-RTT are the server's new transport parameters: STREAM frames in 0-RTT packets (the
+	// observer opens them when it was given the resumption PSK) are held to the same limits as 1-RTT ones.
+	ZeroRTTSameLimits bool
 }
 
 func space(kind string) string {
@@ -117,6 +124,9 @@ func (w *World) WireCheck(opt WireOptions) []WireFinding {
 	r.mu.Lock()
 	log := append([]*Record(nil), r.Log...)
 	r.mu.Unlock()
+	if opt.FromSeq > 0 && opt.FromSeq <= len(log) {
+		log = log[opt.FromSeq:]
+	}
 
 	// ---- C05(b): every genuine packet opens with independently derived keys to well-formed frames;
 	// packet numbers are never reused within a space.
@@ -301,7 +311,7 @@ func (w *World) WireCheck(opt WireOptions) []WireFinding {
 
 	// ---- C04(c): senders stay within the limits delivered to them.
 	if !opt.SkipFlowControl {
-		out = append(out, w.flowControlCheck(log)...)
+		out = append(out, w.flowControlCheck(log, opt)...)
 	}
 	return out
 }
@@ -367,6 +377,23 @@ func ackDueCheck(log []*Record, aliveUntil time.Duration) []WireFinding {
 				}
 			}
 		}
+		// the oracle needs to see every ACK of the receiver: if the observer could not open one of its packets
+		// (a limitation of the observer, counted in Observer.Undecryptable), this direction is not judged
+		blind := false
+		for _, rec := range log {
+			if rec.Forged || rec.Dir == dir || rec.T < established {
+				continue
+			}
+			pkts, _ := rec.Pkts.([]*Packet)
+			for _, p := range pkts {
+				if p.Kind == "undecryptable" {
+					blind = true
+				}
+			}
+		}
+		if blind {
+			continue
+		}
 		sort.SliceStable(arr, func(i, j int) bool { return arr[i].t < arr[j].t })
 		sort.SliceStable(acks, func(i, j int) bool { return acks[i].t < acks[j].t })
 		// Datagrams handed over in the same virtual instant are processed in an order the log does not show
@@ -428,18 +455,34 @@ func ackDueCheck(log []*Record, aliveUntil time.Duration) []WireFinding {
 }
 
 const (
-	tpInitialMaxData           = 0x04
-	tpInitialMaxStreamDataBL   = 0x05
-	tpInitialMaxStreamDataBR   = 0x06
-	tpInitialMaxStreamDataUni  = 0x07
-	tpInitialMaxStreamsBidi    = 0x08
-	tpInitialMaxStreamsUni     = 0x09
+	tpInitialMaxData          = 0x04
+	tpInitialMaxStreamDataBL  = 0x05
+	tpInitialMaxStreamDataBR  = 0x06
+	tpInitialMaxStreamDataUni = 0x07
+	tpInitialMaxStreamsBidi   = 0x08
+	tpInitialMaxStreamsUni    = 0x09
 )
 
-func (w *World) flowControlCheck(log []*Record) []WireFinding {
+func (w *World) flowControlCheck(log []*Record, opt WireOptions) []WireFinding {
 	var out []WireFinding
 	cps, okc := w.TransportParams(true)
 	sps, oks := w.TransportParams(false)
+	if opt.FromSeq > 0 {
+		var byDir [2][]*Packet
+		for _, rec := range log {
+			if rec.Forged {
+				continue
+			}
+			d := C2S
+			if rec.Dir == "s2c" {
+				d = S2C
+			}
+			pkts, _ := rec.Pkts.([]*Packet)
+			byDir[d] = append(byDir[d], pkts...)
+		}
+		cps, okc = TransportParamsFrom(byDir[C2S], true)
+		sps, oks = TransportParamsFrom(byDir[S2C], false)
+	}
 	if !okc || !oks {
 		return nil // handshake did not get far enough
 	}
@@ -494,7 +537,7 @@ func (w *World) flowControlCheck(log []*Record) []WireFinding {
 		for _, e := range evs {
 			pkts, _ := e.rec.Pkts.([]*Packet)
 			for _, p := range pkts {
-				if p.Kind != "1rtt" { // 0-RTT uses remembered limits: not checked here
+				if p.Kind != "1rtt" && !(p.Kind == "0rtt" && opt.ZeroRTTSameLimits && e.send) { // 0-RTT uses remembered limits
 					continue
 				}
 				for _, f := range p.Frames {
